@@ -100,6 +100,7 @@ type pathState struct {
 	pcLen      int
 	facts      *term.Facts
 	quickPruned int
+	quickFeasible int
 	trivial    int
 	symAsserts int
 	pruned     int
@@ -121,6 +122,7 @@ type Stats struct {
 	QuerySat     int
 	QueryUnsat   int
 	QueryUnknown int
+	QuickFeasible int // alternatives shown feasible by the single-small-variable analysis (no query)
 	QuickPruned  int // alternatives refuted by partial evaluation under path equalities (no query)
 	Pruned       int // infeasible alternatives pruned at decision time
 	Trivial      int // assertions closed by the simplifier without a query
@@ -431,6 +433,7 @@ func (m *Machine) runPath(e *Explorer, w workItem) {
 	st.Trivial += ps.trivial
 	st.Pruned += ps.pruned
 	st.QuickPruned += ps.quickPruned
+	st.QuickFeasible += ps.quickFeasible
 	st.AssertsSym += ps.symAsserts
 	switch out.Kind {
 	case "infeasible":
@@ -499,6 +502,7 @@ func (m *Machine) addPC(c *term.T) {
 	m.sol.Assert(c)
 	m.ps.pcLen++
 	m.ps.facts.Add(c)
+	m.ps.facts.AddConjunct(c)
 	if m.ps.modelValid && m.ps.ev.Eval(c) != 1 {
 		m.ps.modelValid = false
 	}
@@ -556,6 +560,7 @@ func (m *Machine) decide(site string, conds []*term.T) int {
 			m.sol.Assert(conds[k])
 			ps.pcLen++
 			ps.facts.Add(conds[k])
+			ps.facts.AddConjunct(conds[k])
 			m.ensureModel()
 		} else {
 			m.addPC(conds[k])
@@ -579,6 +584,24 @@ func (m *Machine) decide(site string, conds []*term.T) int {
 		}
 		if v, ok := ps.facts.PEval(c); ok && v == 0 {
 			ps.quickPruned++ // contradicts equalities already on the path condition
+			continue
+		}
+		if decided, feasible, sv, wit := ps.facts.SmallVarVerdict(c); decided {
+			if !feasible {
+				ps.quickPruned++ // no admitted value of the (single, <= 8 bit) variable satisfies it
+				continue
+			}
+			// feasible: the current model with that variable moved to the witness value
+			mod := make(term.Model, len(ps.model)+1)
+			for k2, v2 := range ps.model {
+				mod[k2] = v2
+			}
+			mod[sv.Name] = wit
+			p := make([]int32, len(ps.trace)+1)
+			copy(p, ps.trace)
+			p[len(ps.trace)] = int32(i)
+			ps.quickFeasible++
+			m.expl.push(workItem{prefix: p, model: mod})
 			continue
 		}
 		// feasibility of the alternative is decided now; its model seeds the new path
